@@ -16,12 +16,12 @@ import (
 	"math/big"
 	"time"
 
+	sdk "github.com/cosmos/cosmos-sdk/types"
 	"github.com/ethereum/go-ethereum/common"
 	"github.com/ethereum/go-ethereum/crypto"
 	"github.com/ethereum/go-ethereum/ethdb/memorydb"
 	"github.com/ethereum/go-ethereum/rlp"
 	"github.com/ethereum/go-ethereum/trie"
-	sdk "github.com/cosmos/cosmos-sdk/types"
 
 	clienttypes "github.com/bianjieai/tibc-go/modules/tibc/core/02-client/types"
 	host "github.com/bianjieai/tibc-go/modules/tibc/core/24-host"
@@ -125,10 +125,10 @@ func (g *ProofGen) ethCase(c *tibctesting.TestChain, kind string, idx int) {
 	ck := c.App.TIBCKeeper.ClientKeeper
 	// stored protocol entries
 	type ent struct {
-		method string
+		method   string
 		src, dst string
-		seq    uint64
-		word   []byte
+		seq      uint64
+		word     []byte
 	}
 	var ents []ent
 	entries := map[string][]byte{}
